@@ -15,7 +15,7 @@ the executable precedence-climbing reference parser (op `toiref`), `toMaxint` = 
 `InRange`, `evalChecked`. PcProofs/CalcGrammarEval.lean: `CodeOk e` = no `<<` with a negative left operand and no
 `MIN % -1` in `e` (the two cases where the repaired code rejects although value and intermediates are representable).
 -/
-import PcProofs.CalcGrammarErr
+import PcProofs.CalcGrammarDigits
 
 namespace Pc.C13Grammar
 open Pc.Calc Pc.Gen
@@ -63,20 +63,22 @@ theorem calculator_is_documented {V : Type} (A : Arith V) (hm : LitMono A) (s : 
 
 /-- **Documented value.** `to_maxint` (repaired) returns `v` iff the string is in the documented language, the exact
     value of its documented tree is `v`, every sub-expression value / shift count / exponent / product of `pow` is
-    representable (`InRange`), and the tree is `CodeOk`. (`tooLarge s = false` is the digit-string pre-check of
-    `to_maxint`: a digit string above `2^127-1` is rejected before the calculator runs; such a string is not
-    `InRange` anyway.) -/
+    representable (`InRange`), and the tree is `CodeOk`. -/
 theorem documented_value (s : Bytes) (v : Int) :
-    toMaxint s = .ok v ↔
-      (tooLarge s = false ∧ ∃ e, Parses s e ∧ evalExact e = some v ∧ InRange e ∧ CodeOk e) :=
-  toMaxint_iff s v
+    toMaxint s = .ok v ↔ ∃ e, Parses s e ∧ evalExact e = some v ∧ InRange e ∧ CodeOk e :=
+  toMaxint_iff' s v
+
+/-- The digit-string pre-check of `to_maxint` ("number too large") only fires on strings that are in the documented
+    language but not in range: it changes the error signal, never the set of accepted strings. -/
+theorem precheck_only_out_of_range (s : Bytes) (ht : tooLarge s = true) (e : Expr) (hp : Parses s e) : ¬ InRange e :=
+  tooLarge_not_inRange ht hp
 
 /-- A string outside the documented language is rejected. -/
 theorem undocumented_rejected (s : Bytes) (h : ¬ ∃ e, Parses s e) : ∃ err, toMaxint s = .error err := by
   cases ht : toMaxint s with
   | error err => exact ⟨err, rfl⟩
   | ok v =>
-    obtain ⟨_, e, hp, _⟩ := (documented_value s v).1 ht
+    obtain ⟨e, hp, _⟩ := (documented_value s v).1 ht
     exact absurd ⟨e, hp⟩ h
 
 /-- What the independent op `toiref` computes (reference parser + bottom-up checked evaluation) is `to_maxint`: the
@@ -152,6 +154,7 @@ example : LitMono wrapA := fun _ _ _ _ => rfl
 -- `documented_value` on concrete strings
 example : toMaxint (ofStr "-(2**2**2**2)") = .ok (-65536) := by decide +kernel
 example : toMaxint (ofStr "-1<<1") = .error .overflow := by decide +kernel
+example : tooLarge (ofStr "170141183460469231731687303715884105728") = true := by decide +kernel
 
 end Pc.C13Grammar
 
@@ -163,6 +166,7 @@ end Pc.C13Grammar
 #print axioms Pc.C13Grammar.calcTree_eq_refTree_exact
 #print axioms Pc.C13Grammar.calculator_is_documented
 #print axioms Pc.C13Grammar.documented_value
+#print axioms Pc.C13Grammar.precheck_only_out_of_range
 #print axioms Pc.C13Grammar.undocumented_rejected
 #print axioms Pc.C13Grammar.toiref_is_toMaxint
 #print axioms Pc.C13Grammar.checked_eval_exact
